@@ -371,6 +371,15 @@ func c16ShadowNames(u *c16Univ, set []int) *c16Names {
 	return nm
 }
 
+// c16SpecialNames: base names, but the parameters are named like special
+// scalar variables (a parameter is an ordinary local whatever its name: it may
+// be an array, and assigning it does not touch the special variable).
+func c16SpecialNames() *c16Names {
+	nm := c16BaseNames()
+	nm.P = [][]string{{"NR", "RSTART"}, {"RLENGTH", "NR"}, {"FNR", "SUBSEP"}}
+	return nm
+}
+
 // c16ReverseNames maps the sorted list of the names used by the program onto
 // itself in reverse order.
 func c16ReverseNames(u *c16Univ, nz int) *c16Names {
@@ -796,7 +805,7 @@ type c16Opts struct {
 }
 
 type c16Variant struct {
-	Naming int // 0 base, 1 reversed alphabetical order, 2 alpha-renaming, 3 parameters shadowing unused globals
+	Naming int // 0 base, 1 reversed alphabetical order, 2 alpha-renaming, 3 parameters shadowing unused globals, 4 parameters named like special scalar variables
 	Perm   []int
 	Run    bool
 }
@@ -813,7 +822,7 @@ func (st *c16State) variants(nf, level int) []c16Variant {
 	var out []c16Variant
 	switch level {
 	case 2:
-		for ni := 0; ni < 4; ni++ {
+		for ni := 0; ni < 5; ni++ {
 			for _, p := range perms {
 				out = append(out, c16Variant{ni, p, true})
 			}
@@ -829,9 +838,9 @@ func (st *c16State) variants(nf, level int) []c16Variant {
 		if nf >= 3 {
 			out = append(out, c16Variant{0, rev, true})
 		}
-		out = append(out, c16Variant{1, perms[0], true}, c16Variant{2, perms[0], true}, c16Variant{3, perms[0], true}, c16Variant{1, rev, true})
+		out = append(out, c16Variant{1, perms[0], true}, c16Variant{2, perms[0], true}, c16Variant{3, perms[0], true}, c16Variant{4, perms[0], true}, c16Variant{1, rev, true})
 	default:
-		out = append(out, c16Variant{0, perms[0], true}, c16Variant{1, rev, false})
+		out = append(out, c16Variant{0, perms[0], true}, c16Variant{1, rev, false}, c16Variant{4, perms[0], true})
 	}
 	if st.vars == nil {
 		st.vars = map[int][]c16Variant{}
@@ -840,7 +849,7 @@ func (st *c16State) variants(nf, level int) []c16Variant {
 	return out
 }
 
-var c16NamingIDs = []string{"base", "reversed", "alpha", "shadow"}
+var c16NamingIDs = []string{"base", "reversed", "alpha", "shadow", "special"}
 
 func (u *c16Univ) eval(c *core.Ctx, st *c16State, set []int, o c16Opts) {
 	ir := u.build(set)
@@ -875,7 +884,7 @@ func (u *c16Univ) eval(c *core.Ctx, st *c16State, set []int, o c16Opts) {
 		expOut = u.simulate(ir, types)
 	}
 	baseOK := true
-	var items [4][]string
+	var items [5][]string
 	var baseSrc string
 	for vi, va := range st.variants(len(u.K), o.Variants) {
 		if items[va.Naming] == nil {
@@ -887,6 +896,8 @@ func (u *c16Univ) eval(c *core.Ctx, st *c16State, set []int, o c16Opts) {
 				nm = c16ReverseNames(u, ir.NZ)
 			case 2:
 				nm = c16AltNames()
+			case 4:
+				nm = c16SpecialNames()
 			default:
 				nm = c16ShadowNames(u, set)
 			}
